@@ -615,6 +615,10 @@ func validate(caller string, start, limit uint64, blocks []eth.Block) error {
 	}
 	for i := 1; i < len(blocks); i++ {
 		prev, curr := blocks[i-1], blocks[i]
+		if curr.Num() != start+uint64(i) {
+			const tag = "%s: rpc response contains invalid data. requested: %d got: %d"
+			return fmt.Errorf(tag, caller, start+uint64(i), curr.Num())
+		}
 		if !bytes.Equal(curr.Header.Parent, prev.Hash()) {
 			slog.Error("rpc response contains invalid data",
 				"num", prev.Num(),
